@@ -70,7 +70,9 @@ def generate(seed: int, tier: str = "quick") -> dict:
     tr = common.draw_transport(r_sch, wire_len, spans, kinds=("file", "file", "socket"))
     if tr["kind"] == "socket":
         cfg["bufsize"] = r_sch.choice(sched.BUFSIZES)
-    cfg["handler_kind"] = r_cfg.choice(("function", "function", "method", "method", "falsy_callable", "raise_once", "returns_value"))
+    cfg["handler_kind"] = r_cfg.choice(("function", "function", "method", "method", "falsy_callable", "raise_once", "returns_value", "returns_false", "error_attr_data", "error_attr_method"))
+    if tr["kind"] == "file" and r_sch.random() < 0.15:
+        tr = {"kind": "pipe"}
     if constructive and r_cfg.random() < 0.2 and frames:
         # pauses longer than the socket timeout, placed exactly BETWEEN frames; the application asks
         # again after each end of stream.  Frame boundaries - and therefore the per-frame verdicts -
@@ -80,7 +82,7 @@ def generate(seed: int, tier: str = "quick") -> dict:
         for f in frames:
             roll = r_sch.random()
             f["gap"] = r_sch.choice((1.5, 3.0, 4.5)) if roll < 0.4 else 0.01 if roll < 0.7 else 0.0
-        tr = {"kind": "socket", "timeout": 1.0, "end": r_sch.choice(("close", "timeout")), "host_delay": 0.0, "rereads": 16, "redrive_all": True, "stress": "boundary_stall"}
+        tr = {"kind": "socket", "timeout": 1.0, "end": r_sch.choice(("close", "timeout")), "host_delay": 0.0, "rereads": 16, "redrive_all": True, "stress": "boundary_stall", "nonblocking": r_sch.random() < 0.4}
         cfg["bufsize"] = r_sch.choice((64, 1024, 4096))
     if r_cfg.random() < 0.5:
         # another reader with another policy / handler is alive while this one is read
@@ -119,13 +121,22 @@ def _run(scn, res=None):
             if n_bytes:
                 t = round(t + (f.get("gap", 0.0) if segs else 0.0), 6)
                 segs.append([t, n_bytes])
-        tr = dict(tr, segments=segs, timeout=1.0)
+        tr = dict(tr, segments=segs, timeout=0.0 if tr.get("nonblocking") else 1.0)
     log = run_reader(wire, dict(cfg0, quitonerror=1, handler=True), tr)
     if log.exc and log.exc[0] in common.proto_error_names():
         # a *protocol* rejection must be reported through the policy, never raised under ERR_LOG
         if res is not None:
             res.evaluations += 1
         return ("rejection_raised_under_ERR_LOG", f"ERR_LOG + handler raised {log.exc} after {len(log.items)} items instead of reporting it to the handler")
+    if log.exc and not log.hang:
+        # a foreign exception under ERR_LOG: C08's business if the stream kills the reader under
+        # every policy - but if ERR_IGNORE reads the very same wire to its end, it is the policy
+        # that changed the outcome, and that is this property
+        probe = run_reader(wire, dict(cfg0, quitonerror=0, handler=True), tr)
+        if res is not None:
+            res.evaluations += 1
+        if probe.exc is None and probe.hang is None:
+            return ("err_log_raises_where_err_ignore_completes", f"ERR_LOG + handler raised {log.exc} after {len(log.items)} items (from {log.exc_where}); ERR_IGNORE read the same stream to its end and delivered {len(probe.items)} items")
     if log.hang or log.exc:
         if res is not None:
             res.skipped_base_failed += 1
